@@ -1,4 +1,6 @@
 """C09 - a failed pooled connection is discarded and pool capacity is conserved."""
+import copy
+
 from .. import engine, gen, codec
 from ..world import TICK
 from .base import Prop, viol
@@ -24,10 +26,12 @@ class C09(Prop):
 
     def plan(self, tier):
         if tier == "quick":
-            return {"units": 12000, "budget_s": 90, "block": 40}
+            return {"units": 8000, "budget_s": 90, "block": 40}
         return {"units": 360000, "budget_s": 1500, "block": 100}
 
     def gen(self, rng, idx, tier):
+        if idx % 40 == 7:
+            return self.gen_threaded(rng)
         nodes, servers = gen.node_specs(1, unix=rng.random() < 0.2)
         idle = rng.choice([0, 5, 60, 0.5, 2.5])
         ck = {"default_noreply": rng.random() < 0.4, "timeout": rng.choice([None, 0.5, 3]),
@@ -73,6 +77,57 @@ class C09(Prop):
             i = rng.choice(call_steps)
             steps[i].setdefault("faults", []).append(gen.random_fault(rng))
         return [base]
+
+    # ---- two connections with different idle ages need two overlapping calls: a small threaded scenario run by
+    # the C08 scheduler (explicit schedule: thread 0 is pre-empted inside its first call, thread 1 runs to the end)
+    def gen_threaded(self, rng):
+        from . import c08
+        nodes, servers = gen.node_specs(1)
+        idle = rng.choice([10, 2.5, 60])
+        ck = {"default_noreply": False, "max_pool_size": rng.choice([None, 2, 3]), "pool_idle_timeout": idle,
+              "timeout": 1}
+        a1 = rng.choice([idle * 0.6, idle * 0.5 + 0.5])          # thread 1 idles, then thread 0 releases
+        a0 = idle - a1 + rng.choice([0.5, 1, idle * 0.3])         # then: older one expired, younger one not
+        if a0 > idle:
+            a0 = idle * 0.9
+        progs = [[{"m": "get", "a": [E(b"k0")]}, {"m": "advance", "dt": a0}, {"m": rng.choice(["get", "set"]),
+                                                                               "a": [E(b"k0")]}],
+                 [{"m": "get", "a": [E(b"k1")]}, {"m": "advance", "dt": a1}]]
+        if progs[0][2]["m"] == "set":
+            progs[0][2]["a"].append(E(b"v"))
+        w = {"stack": "pooled", "servers": servers, "nodes": nodes, "client_kwargs": ck, "knobs": {}}
+        base = {"property": self.id, "world": w, "steps": [],
+                "threads": {"mode": "pooled", "programs": progs, "lock": rng.choice(["generator", "threading"]),
+                            "sched": {"mode": "none"}}}
+        from .. import sched as _sched
+        try:
+            res = c08.execute(copy.deepcopy(base))
+        finally:
+            _sched.uninstall()
+        s = res.extra["sched"]
+        step = next((st for (tid, kind), st in zip(s.trace, s.trace_steps) if tid == 0 and kind == "ev:recv"), None)
+        if step is None:
+            return []
+        base["threads"]["sched"] = {"mode": "explicit", "switches": [[step, 1]]}
+        return [base]
+
+    def run(self, scn):
+        if "threads" not in scn:
+            return Prop.run(self, scn)
+        from . import c08
+        from .. import sched as _sched
+        try:
+            res = c08.execute(scn)
+        finally:
+            _sched.uninstall()       # the sequential scenarios of this check run without instruction events
+        run = res.extra["run"]
+        out = []
+        if not res.violations:       # (C08's own verdicts are C08's business)
+            for d in run.created_while_idle_available[:1]:
+                out.append({"oracle": "healthy-connection-not-reused", "method": None, "disc": "threads",
+                            "step": d["step"], "detail": d})
+        res.violations = out
+        return res
 
     def hooks(self, scn):
         return (PoolHook(),)
@@ -132,6 +187,9 @@ class C09(Prop):
         return out
 
     def trace_key(self, scn, res):
+        if "threads" in scn:
+            s = res.extra["sched"]
+            return ("threads", codec.canon(scn["threads"]["programs"]), tuple(s.trace)), True
         key, nt = Prop.trace_key(self, scn, res)
         idle = scn["world"]["client_kwargs"].get("pool_idle_timeout", 0)
         gaps = []
@@ -143,10 +201,15 @@ class C09(Prop):
 
     def probe_names(self):
         return ("idle-expiry-fired", "reuse-exactly-at-timeout", "reuse-below-timeout", "slow-call-then-reuse",
-                "failure-then-success-maxsize1", "destroyed-after-fault")
+                "failure-then-success-maxsize1", "destroyed-after-fault",
+                "two-idle-connections-older-one-expired")
 
     def probes(self, scn, res):
         p = {}
+        if "threads" in scn:
+            if res.world.stats.get("ev:close"):
+                p["two-idle-connections-older-one-expired"] = 1
+            return p
         ck = scn["world"]["client_kwargs"]
         idle = ck.get("pool_idle_timeout", 0)
         calls = [c for c in res.calls if c.step >= 0]
